@@ -907,10 +907,11 @@ def queries(draw, schema: Schema, feat: Features = None, fuel_range=(1, 3), extr
                 keys = [f"k{i}" for i in range(ncols)]
                 body = "{" + ", ".join(f"{k!r}: {v[0]}" for k, v in zip(keys, vals)) + "}"
                 cols = [(k, TNum(v[1])) for k, v in zip(keys, vals)]
+                form = "dict"  # (an explicit ResultTTree does not take a dict row, first element or not)
             else:
                 body = "(" + ", ".join(v[0] for v in vals) + ")"
                 cols = [(f"col{i}", TNum(v[1])) for i, v in enumerate(vals)]
-            form = "tuple"
+                form = "tuple"
             text = f"Select({src}, lambda {e}: {os_[0]}.Select(lambda {j}: {body}).First())"
             g.labels.add("First")
             g.labels.add("First-of-tuples-row")
